@@ -523,7 +523,7 @@ func init() {
 	reg("C06", "one case = one generated history; non-trivial = at least one status edge observed; distinct by hash of the request log",
 		[]string{"c06.edge.staked->unstaking", "c06.edge.absent->staked", "c06.edge.unstaked->staked"}, map[string]int64{"c06.edge.staked->unstaking": 20, "c06.payouts": 5, "c06.structure_checks": 5000, "c06.payout_exactly_at_completion": 20, "c06.forced_unstakes": 5}, false)
 	reg("C07", "one case = one generated history; non-trivial = at least one slash burned tokens; distinct by hash of the request log",
-		[]string{"c07.slashes_burning", "c07.double_sign_burns"}, map[string]int64{"c07.slashes_burning": 20, "c07.queued_burns": 20, "c07.evidence_exactly_at_max_age": 10, "c07.crossed_minimum": 10, "c07.slash_of_unstaking": 10, "c07.double_sign_burns": 10, "c07.downtime_slashes": 10}, false)
+		[]string{"c07.slashes_burning", "c07.double_sign_burns"}, map[string]int64{"c07.slashes_burning": 20, "c07.queued_burns": 20, "c07.evidence_exactly_at_max_age": 10, "c07.crossed_minimum": 10, "c07.slash_of_unstaking": 10, "c07.double_sign_burns": 10, "c07.downtime_slashes": 10, "c07.slash_leaves_exactly_the_minimum": 2}, false)
 	reg("C08", "one case = one generated history over >= 4 windows; non-trivial = at least one missed vote was accounted; distinct by hash of the request log",
 		[]string{"c08.missed_votes"}, map[string]int64{"c08.votes": 5000, "c08.downtime_punishments": 10}, false)
 	reg("C09", "one case = one generated history; non-trivial = a jailing or an unjail attempt occurred; distinct by hash of the request log",
